@@ -30,13 +30,13 @@ POP = "π1"
 def _universe(tier):
     if tier == "quick":
         return list(enum_O(2)) + list(enum_O(3, max_edges=2))
-    return list(enum_O(2)) + list(enum_O(3))
+    return list(enum_O(2)) + list(enum_O(3, max_edges=3))
 
 
 def domain_configs(nodes, tier):
     """(S, Z): S transport-marked nodes, Z policy nodes, disjoint."""
     out = []
-    for z in subsets(nodes, 0, 1 if tier == "quick" else 2):
+    for z in subsets(nodes, 0, 1):
         rest = [v for v in nodes if v not in z]
         for s in subsets(rest, 0):
             out.append((tuple(s), tuple(z)))
@@ -57,9 +57,8 @@ def shards(tier):
 
 def describe(tier):
     return {
-        "bound": ("target graphs O(2) + O(3, <=2 edges)" if tier == "quick" else "target graphs O(2) + O(3)")
-        + "; one source domain: every set S of transport-marked nodes x every policy set Z (|Z| <= "
-        + ("1" if tier == "quick" else "2")
+        "bound": ("target graphs O(2) + O(3, <=2 edges)" if tier == "quick" else "target graphs O(2) + O(3, <=3 edges)")
+        + "; one source domain: every set S of transport-marked nodes x every policy set Z (|Z| <= 1"
         + ", disjoint from S), domain graph = target graph with edges into Z removed plus T_s -> s; orderings: the graph's own "
         "and the reversed-tie alternative; ctfTRu events of up to two items (up to 1 subscript each"
         + ("" if tier == "thorough" else ", non-reflexive")
